@@ -57,8 +57,11 @@ Copy(raw, d, now, a) ==
         srcTy == Ty(d, src)
     IN  IF Len(a) < 2 \/ Len(a) > 3 \/ (Len(a) = 3 /\ ~repl) THEN Fail(d, EArg)
         ELSE IF ~Has(d, src) THEN
-             (IF Expired(raw, now, src) /\ On("D_COPY_SEES_EXPIRED_KEYS") /\ raw[src].ty = "string"
+             (IF Expired(raw, now, src) /\ On("D_COPY_SEES_EXPIRED_KEYS")
               THEN (IF ~repl /\ Has(raw, dst) THEN ResD(d, RInt(0), "D_COPY_SEES_EXPIRED_KEYS")
+                    ELSE IF raw[src].ty \in {"hash", "set"} /\ On("D_COPY_HASH_SET_PANICS")
+                         THEN [ResD(d, [t |-> "dead"], "D_COPY_SEES_EXPIRED_KEYS") EXCEPT !.dv = @ \cup {"D_COPY_HASH_SET_PANICS"}]
+                    \* the copy of the expired object (invisible) replaces whatever the destination held
                     ELSE ResD(Put(Del(d, dst), dst, raw[src]), RInt(1), "D_COPY_SEES_EXPIRED_KEYS"))
               ELSE Res(d, RInt(0)))
         ELSE IF ~repl /\ Has(d, dst) THEN Res(d, RInt(0))
@@ -69,8 +72,11 @@ Copy(raw, d, now, a) ==
         ELSE Res(Put(d, dst, d[src]), RInt(1))
 
 KeysCmd(d, a) ==
-    IF Len(a) # 1 THEN Fail(d, EArg)
-    ELSE Res(d, RUSet({k \in DOMAIN d : Glob(a[1], k)}))
+    LET ideal == {k \in DOMAIN d : Glob(a[1], k)}
+        emu == {k \in DOMAIN d : EmuGlob(a[1], k)}
+    IN  IF Len(a) # 1 THEN Fail(d, EArg)
+        ELSE IF emu # ideal /\ On("D_GLOB_CLASS_NO_NEGATION_NO_RANGE") THEN ResD(d, RUSet(emu), "D_GLOB_CLASS_NO_NEGATION_NO_RANGE")
+        ELSE Res(d, RUSet(ideal))
 
 RandomKey(raw, d, now, a) ==
     IF Len(a) # 0 THEN Fail(d, EArg)
@@ -152,14 +158,15 @@ Sort(d, a) ==
         asc == IF o.alpha THEN SortedBy(src, BytesLess) ELSE SortedBy(src, NumLess)
         sorted == IF o.desc THEN Rev(asc) ELSE asc
         ideal == LimitOf(sorted, o)
-        emu == LimitOf(src, o)      \* the emulator only sorts when BY is given
+        \* the emulator only sorts when BY is given, and never applies LIMIT
+        emuDv == (IF sorted # src \/ (~o.alpha /\ ~numeric) THEN {"D_SORT_WITHOUT_BY_DOES_NOT_SORT"} ELSE {})
+                 \cup (IF o.lim /\ LimitOf(src, o) # src THEN {"D_SORT_LIMIT_IGNORED"} ELSE {})
+        emuOn == emuDv # {} /\ emuDv \subseteq devs
     IN  IF Len(a) < 1 \/ ~o.ok THEN Fail(d, EArg)
         ELSE IF Ty(d, k) \in {"string", "hash"} THEN Fail(d, WT)
         ELSE IF Ty(d, k) = "set" /\ On("D_SORT_SET_PANICS") THEN ResD(d, [t |-> "dead"], "D_SORT_SET_PANICS")
-        ELSE IF ~o.alpha /\ ~numeric THEN
-             (IF On("D_SORT_WITHOUT_BY_DOES_NOT_SORT") THEN ResD(d, RBulks(emu), "D_SORT_WITHOUT_BY_DOES_NOT_SORT")
-              ELSE Fail(d, RErr("ERR")))
-        ELSE IF emu # ideal /\ On("D_SORT_WITHOUT_BY_DOES_NOT_SORT") THEN ResD(d, RBulks(emu), "D_SORT_WITHOUT_BY_DOES_NOT_SORT")
+        ELSE IF emuOn /\ (RBulks(src) # RBulks(ideal) \/ (~o.alpha /\ ~numeric)) THEN [Res(d, RBulks(src)) EXCEPT !.dv = emuDv]
+        ELSE IF ~o.alpha /\ ~numeric THEN Fail(d, RErr("ERR"))
         ELSE Res(d, RBulks(ideal))
 
 =============================================================================
